@@ -127,4 +127,15 @@ def importAlias (f : FileS) (p n : Str) : FileS :=
 def importNames (f : FileS) (m : List (Str × Str)) : FileS :=
   m.foldl (fun f e => importName f e.1 e.2) f
 
+/-! constructors and the file-level setters (jen/file.go `NewFile`, `NewFilePath`, `NewFilePathName`,
+    `HeaderComment`, `PackageComment`, `CgoPreamble`); the embedded Group of every File is
+    `Code.fileInfo` -/
+
+def newFile (name : Str) : FileS := { name := name }
+def newFilePath (toLower : Str → Str) (path : Str) : FileS := { name := guessAlias toLower path, path := path }
+def newFilePathName (path name : Str) : FileS := { name := name, path := path }
+def headerComment (f : FileS) (t : Str) : FileS := { f with headers := f.headers ++ [t] }
+def packageComment (f : FileS) (t : Str) : FileS := { f with comments := f.comments ++ [t] }
+def cgoPreamble (f : FileS) (t : Str) : FileS := { f with cgo := f.cgo ++ [t] }
+
 end Registry
